@@ -1,5 +1,5 @@
 """C09  AllocProfiler is a transparent wrapper around the wrapped allocator."""
-from lib.facts import norm, place_fields
+from lib.facts import norm, place_fields, origins
 
 EXPLANATION = (
     "Fully structural. R09.1: in each of the four GlobalAlloc methods of AllocProfiler<A> there is exactly one call of "
@@ -79,10 +79,14 @@ def run(ctx, prog, crate):
                 ctx.fail("R09.1", [m, "parameter-reassigned", b.param_name(s["p"]["l"])],
                          "a parameter is modified before being forwarded", b.where(bi))
         # result returned verbatim
-        ctx.check(c.dest["l"] == 0 and not c.dest["proj"], "R09.1", [m, "result-verbatim"],
-                  "the wrapped allocator's result is not written directly to the return place", c.line())
-        writes0 = [(bi, si) for bi, si, s in b.stmts() if s["k"] == "assign" and s["p"]["l"] == 0]
-        ctx.check(not writes0, "R09.1", [m, "result-not-overwritten"], "return place written elsewhere", b.where(0))
+        # (directly, or through a temporary that is only copied: `let ptr = inner.alloc(..); ...; ptr`)
+        og = origins(b, {"k": "move", "p": {"l": 0, "proj": [], "ty": ""}})
+        unit = b.local_ty(0) == "()"
+        ctx.check(unit or (len(og) == 1 and og[0][0] == "call" and og[0][1].bb == c.bb), "R09.1", [m, "result-verbatim"],
+                  "the value returned is not (only) the wrapped allocator's result: %s" % [o[1].callee if o[0] == "call" else o[0] for o in og], c.line())
+        srcs0 = b.prov.local_src(0)
+        ctx.check(unit or (not any(s.kind in ("binop", "unop", "const", "phi") for s in srcs0)), "R09.1", [m, "result-not-overwritten"],
+                  "the returned pointer is computed/merged from %s" % sorted(s.label() for s in srcs0 if s.kind in ("binop", "unop", "const", "phi")), b.where(0))
         # nothing else touches self.alloc
         for o in b.live_calls():
             if o.bb == c.bb:
